@@ -157,6 +157,7 @@ package ingress
 //@   calls queue.Store.Enqueue requires [C10:enqueue_only_for_resolved_route] arg1.Route == route && (s.ResolveRoute != nil ==> routeResolved && route == resolvedRoute)
 //@   calls queue.Store.Enqueue requires [C07:payload_is_the_body_read] arg1.Payload == body && body == bodyRead && arg1.Headers == headers && arg1.Target == target
 //@   calls queue.Store.Enqueue requires [C12:within_body_limit] len(arg1.Payload) <= bodyLimit && (s.AllowRequestFor != nil ==> rateAllowed)
+//@   calls queue.Store.Enqueue requires [C18:one_generation] (s.BasicAuthFor != nil ==> genBasic == genRoute) && (s.ForwardAuthFor != nil ==> genForward == genRoute) && (s.HMACAuthFor != nil ==> genHMAC == genRoute) && (s.LimitsFor != nil ==> genLimits == genRoute) && (s.TargetsFor != nil ==> genTargets == genRoute)
 //@   calls queue.Store.Enqueue requires [C02:fresh_queued_envelope] arg1.ID == "" && arg1.State == "" && arg1.LeaseID == "" && arg1.Attempt == 0
 //@   ensures [C01:accepted_only_after_every_target_stored] respStatus == 202 ==> enqFailures == old(enqFailures) && enqueues > old(enqueues)
 //@   ensures [C01:any_store_error_is_503] enqFailures != old(enqFailures) ==> respStatus == 503
